@@ -16,6 +16,8 @@ pub mod parser;
 pub mod serde;
 pub mod value;
 pub mod writer;
+#[cfg(feature = "verif_hooks")]
+pub mod verif;
 
 // re-export FastStr
 pub use ::faststr::FastStr;
